@@ -177,6 +177,15 @@ def bounded(tier, seed, procs):
         if r != ("val", want):
             b2.fail(Failure("substitute-kwargs", f"expr={e!r} d={d!r} kw={kw!r}", dict(kind="subst-kw", expr=trees.src(e), d=repr(d), kw=repr(kw)),
                             expected=repr(want), actual=outcome.describe(r), functions=["substitute"]))
+        # the documented parameters passed by name
+        from pymbolic.mapper.substitutor import SubstitutionMapper as _SM
+        for form, fn in (("map-by-name", lambda: substitute(e, variable_assignments=d, **kw)), ("both-by-name", lambda: substitute(expression=e, variable_assignments=d, **kw)),
+                         ("mapper-by-name", lambda: substitute(e, d, mapper_cls=_SM, **kw)), ("all-by-name", lambda: substitute(expression=e, variable_assignments=d, mapper_cls=_SM, **kw))):
+            r = outcome.run(fn)
+            b2.case((form, repr(e), repr(d), repr(kw)))
+            if r != ("val", want):
+                b2.fail(Failure("substitute-kwargs", f"form={form} expr={e!r} d={d!r} kw={kw!r}", dict(kind="subst-kw-form", form=form, expr=trees.src(e), d=repr(d), kw=repr(kw)),
+                                expected=repr(want), actual=outcome.describe(r)[:150], functions=["substitute"]))
     # call histories on one caller-owned dict: keyword assignments of one call must not leak into the dict or into the next call
     z = trees.Z
     e3 = p.Sum((x, p.Product((y, z))))
